@@ -43,7 +43,9 @@ class AliasResolutionError(GriffeError):
         message = f"Could not resolve alias {alias.path} pointing at {alias.target_path}"
         try:
             filepath = alias.parent.relative_filepath  # type: ignore[union-attr]
-        except BuiltinModuleError:
+        except (BuiltinModuleError, ValueError):
+            # Builtin modules have no file path, and none of the directories
+            # of a namespace package may be relative to the current working directory.
             pass
         else:
             message += f" (in {filepath}:{alias.alias_lineno})"
